@@ -237,6 +237,13 @@ def step (st : St) (line : String) : St × String :=
       let ob := match i.outbound with | some b => hexStr b | none => "none"
       (st, s!"st {i.started} {i.finished} {sc} {ob} {i.pwScalar}")
     | none => bad
+  | ["p.mns", pid] =>
+    match nat? pid >>= (find · st.systems) with
+    | some a =>
+      match alookup (nat? pid).get! a.sys.params with
+      | some p => let G := a.g.toGroup; (st, s!"ok {hexStr (G.enc p.M)} {hexStr (G.enc p.N)} {hexStr (G.enc p.S)}")
+      | none => bad
+    | none => bad
   | ["entleft", sid] =>
     match nat? sid >>= sessionOf st with
     | some s => (st, s!"ok {s.inst.entropy.stream.length}")
